@@ -7,11 +7,13 @@ from sa.props import c26
 
 def run(chk):
     fx = F.Facts()
+    chk.rule('C02-kind', 'a declared operator Output can hold the kind of number Python computes: integral classes only for integral results, no real class where a complex result is '
+                         'possible (negative base, non-integral Float exponent) — shared with C26-kind')
     chk.rule('C02-sign', 'a declared operator Output is Nat only where Python\'s result is non-negative for all operands of the declared classes '
                          '(the generated code wraps results in the constructor of the static type, and Nat\'s constructor raises ValueError)')
     chk.rule('C02-wrap', 'in a runtime class whose constructor raises on a value constraint (Nat, NatMut, Bool ...), every binary dunder that wraps its result in that class '
                          'does so under a guard on the other operand or on the result: the checker types `Nat + Int` through Int.__add__ (Nat <: Int) but Python dispatches to Nat.__add__')
-    n = c26.sign_rules(chk, fx, 'C02-sign')
+    n = c26.sign_rules(chk, fx, 'C02-sign', 'C02-kind')
     chk.floor('declared numeric operator rows', n, 20)
     method_rules(chk, fx, 'C02-method')
     nd = wrap_rules(chk, 'C02-wrap')
